@@ -1896,6 +1896,14 @@ var ruleLimitSlice = &core.Rule{ID: "R04.1", Min: 5,
 				f = g
 			}
 		}
+		// one variable is the limit: what SetLimit stores is what the entry points load
+		{
+			var names []string
+			for _, lv := range cm.limit {
+				names = append(names, lv.Name())
+			}
+			s.Check(len(cm.limit) == 1, "one limit variable", c.Pos(m.walk.Pos()), strings.Join(names, ", "), fmt.Sprintf("%d package variables are accessed through sync/atomic as if they were the read limit (%s): a limit stored into one and loaded from another never takes effect", len(cm.limit), strings.Join(names, ", ")))
+		}
 		// the limit that is snapshot is the one the caller set: every exported func(uint32) of the root package stores its
 		// parameter into the limit variable (sync/atomic function or method), on the way to every return
 		for _, g := range cm.fs {
